@@ -182,7 +182,7 @@ theorem nextChunk {L : Layout} (hL : L.Valid) {f : Bytes} {z : Z} {s : Rd} (h : 
     (hj : z.j = z.c.length) (c2 : Bytes) (cs2 : List Bytes) (hcs : z.cs = c2 :: cs2) :
     ∃ s1 s2, readTail cfg f s = .ok s1 ∧ s1.hasSuccessor = true ∧ readHead cfg f s1 = .ok s2
       ∧ CInside L f ⟨z.stR, z.pre ++ [z.c], c2, cs2, 0, z.rrs⟩ s2 ∧ s2.startOfLr = s.startOfLr
-      ∧ Z.st2 L ⟨z.stR, z.pre ++ [z.c], c2, cs2, 0, z.rrs⟩ = z.st2 L := by
+      ∧ Z.st2 L ⟨z.stR, z.pre ++ [z.c], c2, cs2, 0, z.rrs⟩ = z.st2 L ∧ s1.isEOF = false := by
   have hd := h.drop
   unfold tailInside at hd
   rw [hj, List.drop_length, List.nil_append, hcs] at hd
@@ -221,7 +221,7 @@ theorem nextChunk {L : Layout} (hL : L.Valid) {f : Bytes} {z : Z} {s : Rd} (h : 
   obtain ⟨s2, e2, hp⟩ := readHead_ok (cfg := cfg) (f := f) L { s with mustReadHead := true, pos := s.pos + L.prtLen }
     ((z.st L).next L z.c) false cs2.isEmpty c2 h.tm h.tl hpos1 hd3 (prLenOf_lt L hL c2 hc2.2) (by omega) (by omega)
   have hpe : (z.pre ++ [z.c]).isEmpty = false := by cases z.pre <;> rfl
-  refine ⟨_, s2, e1, hsucc, e2, ?_, ?_, hst2'⟩
+  refine ⟨_, s2, e1, hsucc, e2, ?_, ?_, hst2', h.eof⟩
   · refine ⟨?_, ?_, ?_, hp.ldLen, hp.ldIndex, Nat.zero_le _, hp.mrh, ?_, hp.tm, ?_, h.bl, ?_, h.rne, ?_⟩
     · rw [hst', hp.pos, hpos1]; rfl
     · rw [hp.drop]; unfold tailInside; simp only [hst', hst2', List.drop_zero, hpe]
@@ -327,7 +327,7 @@ theorem allLoop_ok {L : Layout} (hL : L.Valid) {f : Bytes} : ∀ (cs : List Byte
     | succ k =>
       obtain ⟨e1, h1⟩ := advanceZ h acc (z.c.length - z.j) (Nat.le_refl _)
       have hjle := h.jle
-      obtain ⟨s2, s3, e2, e3, e4, h3, e5, e6⟩ := nextChunk (cfg := cfg) hL (z := { z with j := z.j + (z.c.length - z.j) }) h1
+      obtain ⟨s2, s3, e2, e3, e4, h3, e5, e6, _⟩ := nextChunk (cfg := cfg) hL (z := { z with j := z.j + (z.c.length - z.j) }) h1
         (by simp only []; omega) c2 cs2 hcs
       obtain ⟨s', e7, h7, e8⟩ := ih ⟨z.stR, z.pre ++ [z.c], c2, cs2, 0, z.rrs⟩ s3
         (acc.app ((z.c.drop z.j).take (z.c.length - z.j))) k rfl h3 (by simpa using hf)
@@ -408,7 +408,7 @@ theorem sizedLoop_ok {L : Layout} (hL : L.Valid) {f : Bytes} : ∀ (cs : List By
           obtain ⟨e1, h1⟩ := advanceZ h acc (z.c.length - z.j) (Nat.le_refl _)
           have hsucc := succ_of_inside h1
           simp only [hcs, List.isEmpty_cons, Bool.not_false] at hsucc
-          obtain ⟨s2, s3, e2, e3, e4, h3, e5, e6⟩ := nextChunk (cfg := cfg) hL (z := { z with j := z.j + (z.c.length - z.j) }) h1
+          obtain ⟨s2, s3, e2, e3, e4, h3, e5, e6, _⟩ := nextChunk (cfg := cfg) hL (z := { z with j := z.j + (z.c.length - z.j) }) h1
             (by simp only []; omega) c2 cs2 hcs
           obtain ⟨s', z', e7, h7, a7, e8⟩ := ih ⟨z.stR, z.pre ++ [z.c], c2, cs2, 0, z.rrs⟩ s3
             (acc.app ((z.c.drop z.j).take (z.c.length - z.j))) k (br + (z.c.length - z.j)) size rfl h3
